@@ -15,19 +15,19 @@ CLAIMED = {
             "Windows are the hook points between optimistic read, change, lock and save; more than 4 writers and windows inside user callbacks are not explored; a porcupine timeout is inconclusive.",
             "DESIGN.md §4 C02"),
     "C03": ("offline checkers over recorded event logs (reference fold vs Get/List at quiescent points; per-subscriber delivery order vs commit order tapped under the write lock) over forced subscribe/publish windows (hooks + parking) and stress",
-            "Runtime monitoring: subscribers of every kind and option combination are opened while writers are parked inside their commit/publish windows (and vice versa), and at random instants under stress with random consumer pacing; all written values are uniquely tagged. At the quiescent point after the writers returned, each subscriber's folded view must equal Get/List (with its read mask), its delivery order must not contradict the commit order, a backpressured stream must have no gaps, and no writer may be blocked while consumers keep receiving.",
+            "Runtime monitoring: subscribers of every kind and option combination are opened while writers are parked inside their commit/publish windows (and vice versa), and at random instants under stress with random consumer pacing; all written values are uniquely tagged. At the quiescent point after the writers returned, each subscriber's folded view must equal Get/List (with its read mask), its delivery order must not contradict the commit order, a backpressured stream must have no gaps, and no writer may be blocked while consumers keep receiving. Further forced parts: tolerance comparers with drifting writes, subscriptions opened with a dead context, subscriptions opened on a just emptied collection with unpublished commits pending, partial (masked) updates, and a hook-free storm of seeded subscriptions against a counting writer.",
             "Quiescence (every goroutine blocked in two identical atomic dumps) stands for 'once writers stop and the reader has drained'; consumers that stop receiving are C09/C10's subject; more than 3 writers are not explored.",
             "DESIGN.md §4 C03"),
     "C04": ("online trace checker: every backpressured subscriber's events compared with the single writer's log (sequential model) after each write, at quiescent points; counting fake clock for change times",
-            "Runtime monitoring: histories of successful and failing Set/Add/Update/Delete calls (with and without WithWriteTime) are driven one call at a time; backpressured subscribers with every option combination are opened before every step; after every step count, order, id, kind, new/old value, change time, seed flags, seed order and seed change times of what each subscriber received are compared with the writer's log. Exhaustive for short histories, random for long ones; equivalences configured: none, an equivalence relation, and a non-transitive tolerance (judged against the value each subscriber holds).",
+            "Runtime monitoring: histories of successful and failing Set/Add/Update/Delete calls (with and without WithWriteTime) are driven one call at a time; backpressured subscribers with every option combination are opened before every step; after every step count, order, id, kind, new/old value, change time, seed flags, seed order and seed change times of what each subscriber received are compared with the writer's log. Exhaustive for short histories, random for long ones; equivalences configured: none, an equivalence relation, and a non-transitive tolerance (judged against the value each subscriber holds). Forced parts: joins between snapshot and registration, during a publish, after unpublished commits, a subscriber leaving mid-seed, and a backpressured reader that pauses over a whole write script.",
             "Change times are decided with a counting fake clock (a reported time identifies the reading it came from): exact when a write time is given, otherwise within the readings taken during the call; equivalences are applied to read-masked values; for the tolerance the expectation is per subscriber and per id (value last sent, or the previous stored value before anything was sent).",
             "DESIGN.md §4 C04"),
     "C06": ("reference-model monitor: independent projection oracle + shadow copies of stored/passed messages and masks, corrupted masks under recover / crash isolation",
             "Runtime monitoring: nil, empty and every mask of <= 3 paths from a pool (nested, through repeated messages, parent+child, duplicates) x 8 stored messages, random masks, and systematically corrupted masks (unknown segment, continuation through scalar / map / repeated scalar, empty segment) are run through ResponseFilter.Validate/Filter/FilterClone, Value.Get/Pull, Collection.Get/List/Pull/PullID; every returned message is compared with an independent projection, the stored and passed-in messages and the mask are shadow-copied and re-compared, validation must report corrupted masks invalid and no read may panic (Pull cases behind crash isolation). Trait messages: several subscribers with different masks at once, and masked reads (nested paths, opened masked Pull streams) through every reading RPC of every trait model server, after which the unmasked reads must return what they returned before.",
-            "A result with or without empty shells of unselected parent messages is accepted; unknown fields kept by a masked read are counted, not judged; at trait-server level only the never-mutates clause is judged (agreement of the masked response with the reference projection is counted).",
+            "A result with or without empty shells of unselected parent messages is accepted; unknown fields kept by a masked read are counted, not judged; at trait-server level a masked response (unary, or the first messages of a Pull stream) must be, element by element, the reference projection of the unmasked one; an element returned whole by a server path that never applies the mask (wastepb) is counted, not judged.",
             "DESIGN.md §4 C06"),
     "C07": ("shadow-copy monitor: every message crossing an API boundary is deep-copied when it crosses and re-compared after every later operation; inputs are scribbled after each write",
-            "Runtime monitoring: random operation sequences on Value/Collection (with 0-2 open subscriptions whose seeds and events are retained), on every trait model server reachable through its Register method (handlers called directly so the real pointers flow, ids harvested from earlier responses, random valid read and update masks including nested paths) and on model-level methods without an RPC (parent, metadata model and collection, enter/leave, electric). After every operation all retained messages are compared with their copies; after every write the caller's message is overwritten and the store (and everything retained) must be unaffected.",
+            "Runtime monitoring: random operation sequences on Value/Collection (with 0-2 open subscriptions whose seeds and events are retained), on every trait model server reachable through its Register method (handlers called directly so the real pointers flow, ids harvested from earlier responses, random valid read and update masks including nested paths) and on model-level methods without an RPC (parent, metadata model and collection, enter/leave, electric). After every operation all retained messages are compared with their copies; after every write the caller's message is overwritten (field by field, and through the pointers of optional scalars and the backing arrays of bytes fields) and the store (and everything retained) must be unaffected. Forced parts: subscriptions opened while a write is pending, events shared between subscribers, and a writer held between its read and the lock while another writer commits.",
             "The harness never mutates messages it obtained from reads; constructor initial values are cloned by the harness; a result that merely aliases the caller's own input is reported under its own key class.",
             "DESIGN.md §4 C07"),
     "C08": ("online reference-model monitor: decision table per event and fold(filtered stream) vs List(WithInclude) at quiescent points, predicates enumerated as truth tables",
@@ -39,11 +39,11 @@ CLAIMED = {
             "An absent message/list/map named by the mask may be cleared or left; switching a oneof arm by a nested path is exempt from the frame; rejection of valid masks with duplicate paths is counted, not judged.",
             "DESIGN.md §4 C05"),
     "C09": ("permit-driven consumer + quiescence oracle: bounded-exhaustive op sequences x receive patterns, reference fold with per-id chain checks, blocked-writer detection on goroutine state",
-            "Runtime monitoring: every valid add/update/remove sequence over two ids (Value: set) up to length 4 (thorough 6) x every pattern of consumer receives is executed with each step taken at a quiescent point, so which sends are separated by a receive is enumerated, not scheduled by chance; folded view with chain checks vs List/Get after a final drain; every lossy write must have returned at the quiescent point after it; with backpressure nothing is dropped, order is kept and writers wait beyond the pipeline depth; an undeliverable Value write must return an error.",
+            "Runtime monitoring: every valid add/update/remove sequence over two ids (Value: set) up to length 4 (thorough 6) x every pattern of consumer receives is executed with each step taken at a quiescent point, so which sends are separated by a receive is enumerated, not scheduled by chance; folded view with chain checks vs List/Get after a final drain; every lossy write must have returned at the quiescent point after it; with backpressure nothing is dropped, order is kept and writers wait beyond the pipeline depth; an undeliverable Value write must return an error. Further scenarios: resources with a comparer, the backpressure option given twice or not at all, masked next to unmasked subscribers, subscribers cancelled mid-seed or joining late, during a write or during a held-up delivery.",
             "Quiescence stands for 'the consumer has received all it will get'; the send-timeout clause waits on the library's real five-second timer and is decided by the returned error; emission order between different ids is not asserted.",
             "DESIGN.md §4 C09"),
     "C10": ("forced cancel injection at hook points (parking) + stress, decided by quiescence: channel closure, returned writers, goroutine-dump leak check against a baseline, exactly-once/order checker over tagged bus events; crash isolation per scenario",
-            "Runtime monitoring: for Bus, Value.Pull, Collection.Pull and PullID (lossy/backpressured, seed/updates-only) a cancel is injected while a sender, subscriber or stopper is parked at each hook point, while a send is blocked on a consumer that stopped receiving, with pre-cancelled contexts and at random instants under stress with 0-8 subscribers and 0-3 writers. At quiescent points: every cancelled channel closed, no writer stalled by a cancelled subscription, every goroutine started by the library gone even if the consumer never reads again, PullID ended by removal of its item, bus events exactly once and in per-sender order for listeners live for the whole send. A dead worker process is a violation of the scenario that ran.",
+            "Runtime monitoring: for Bus, Value.Pull, Collection.Pull and PullID (lossy/backpressured, seed/updates-only) a cancel is injected while a sender, subscriber or stopper is parked at each hook point, while a send is blocked on a consumer that stopped receiving, with pre-cancelled contexts and at random instants under stress with 0-8 subscribers and 0-3 writers. At quiescent points: every cancelled channel closed, no writer stalled by a cancelled subscription, every goroutine started by the library gone even if the consumer never reads again, PullID ended by removal of its item (also when the item was created after subscribing and the consumer paused meanwhile), Listen not held up by a send in progress, bus events exactly once and in per-sender order for listeners live for the whole send. A dead worker process is a violation of the scenario that ran.",
             "Quiescence is decided from atomic goroutine dumps; the library's 1 s log-only alarm goroutines are ignored; 'live for the whole send' is decided with a logical clock.",
             "DESIGN.md §4 C10"),
     "C11": ("Go race detector (go build -race) over seeded random concurrent programs on every concurrently-usable type; reports parsed from GORACE logs and de-duplicated by the pair of innermost sc-golang functions",
@@ -60,7 +60,7 @@ CLAIMED = {
             "DESIGN.md §4 C13"),
     "C14": ("online relations monitor through the full wrapper-router-wrapper stack, triples discovered from service descriptors, servers discovered from the source tree; streams judged at quiescent points; crash isolation per step",
             "Runtime monitoring: for every model server / memory device found in the tree that has a Get/Update/Pull triple, random histories of updates (valid, rule-violating, masked), masked Gets and 0-2 open Pull streams run through WrapApi(router(WrapApi(server))): Update response = next Get, masked Get = projection of the full Get, a new Pull starts with the current value, every large change appears on every open stream with the response's value and the Pull request's name, a rejected Update leaves Get unchanged, update masks are honoured, and the process must not die.",
-            "Servers without an Update RPC are out of domain; lightpb.MemoryDevice only with zero tween duration and hail without wall-clock GC; a server type found in the tree but missing from the table makes the run inconclusive.",
+            "Servers without an Update RPC are out of domain; in the generated histories lightpb.MemoryDevice runs only with zero tween duration (its ramp writer is driven by separate ramp-then-plain-Update cases whose verdict waits for the ramp goroutine to exit) and hail without wall-clock GC; a server type found in the tree but missing from the table makes the run inconclusive.",
             "DESIGN.md §4 C14"),
     "C15": ("online oracle over page walks: concatenation of the pages followed by next_page_token vs the model's full listing, plus hostile inputs under recover / child-process isolation",
             "Runtime monitoring: for each of the seven paged List RPCs, collections of sizes 0-60 and the boundary sizes with random ids (prefixes of each other included) are walked with every page size of the property's list (mixed sizes too), directly and through the wrapped stack; every walk must return each item exactly once in listing order, pages no longer than the effective size, total_size right and a finite chain. Negative sizes and corrupted tokens (truncated, bit-flipped, non-base64, foreign, out-of-range numeric) must be answered with an error status, never a panic or an endless chain.",
@@ -71,7 +71,7 @@ CLAIMED = {
             "Presence-only differences of change_time and one-sided well-known values are counted, not judged; durations and times are kept in the exactly representable range.",
             "DESIGN.md §4 C16"),
     "C17": ("contract evaluator over gated executions: members gated by channels released in an enumerated order with quiescence between releases; goroutine-dump leak and hang detection; child process per batch",
-            "Runtime monitoring: for member counts 0-4 (thorough 5-6) every success/failure assignment x every completion order x every strategy and entry point (Execute, Execute*, ExecuteUpTo, and the onoffpb/lightpb groups through fake clients) is executed with members gated by the harness, and the returned error, results and indexes, the first error, which member contexts are cancelled when, panics, hangs and leaked pkg/group goroutines are compared with a contract evaluator written from the property statement; random scenarios up to 8 members with cancellation-aware members and caller cancels.",
+            "Runtime monitoring: for member counts 0-4 (thorough 5-6) every success/failure assignment x every completion order x every strategy and entry point (Execute, Execute*, ExecuteUpTo, and the onoffpb/lightpb groups through fake clients) is executed with members gated by the harness, and the returned error, results and indexes, the first error, which member contexts are cancelled when, panics, hangs and leaked pkg/group goroutines are compared with a contract evaluator written from the property statement; random scenarios up to 8 members with cancellation-aware members and caller cancels; every strategy again with a caller whose context is already done or cancelled by a member; group Pull with members that deliver values.",
             "Completion order is an enumerated input (one gate released per quiescent point); where the statement leaves cancellation of still-running members open after a success decision both behaviours are accepted and counted.",
             "DESIGN.md §4 C17"),
     "C18": ("reference-model monitor (dense-timeline / step-function brute-force oracle) over exhaustive small grids and random inputs",
